@@ -12,21 +12,24 @@ Definition nonempty {A} (l : list A) := match l with [] => false | _ => true end
 
 Inductive scan_res :=
 | Done (tok : list byte) (hard : bool) (rest : list byte)
-| NeedMore (e : esc) (acc : list byte) (inarg : bool).
+| NeedMore (e : esc) (acc : list byte) (inarg : bool) (eb : bool).
 
-(* the match over (escape, pending[i]) over one buffer; [ia] is in_argument: a quote was opened or a byte was pushed *)
-Fixpoint scan (e : esc) (acc : list byte) (ia : bool) (buf : list byte) : scan_res :=
+Definition is_blank (c : byte) : bool := (c =? 32) || (c =? 9).
+
+(* the match over (escape, pending[i]) over one buffer; [ia] is in_argument: a quote was opened or a byte was pushed;
+   [eb]: the byte just taken was a blank quoted by a backslash - a line ending in a blank continues on the next one *)
+Fixpoint scan (e : esc) (acc : list byte) (ia eb : bool) (buf : list byte) : scan_res :=
   match buf with
-  | [] => NeedMore e acc ia
+  | [] => NeedMore e acc ia eb
   | c :: buf' =>
       match e with
-      | EQuote q => if c =? q then scan ENone acc true buf' else scan e (acc ++ [c]) true buf'
-      | ESlash => scan ENone (acc ++ [c]) true buf'
+      | EQuote q => if c =? q then scan ENone acc true false buf' else scan e (acc ++ [c]) true false buf'
+      | ESlash => scan ENone (acc ++ [c]) true (is_blank c) buf'
       | ENone =>
-          if is_quote c then scan (EQuote c) acc true buf'
-          else if c =? 92 then scan ESlash acc ia buf'
-          else if is_ws c then (if ia then Done acc (c =? 10) buf' else scan ENone acc ia buf')
-          else scan ENone (acc ++ [c]) true buf'
+          if is_quote c then scan (EQuote c) acc true false buf'
+          else if c =? 92 then scan ESlash acc ia false buf'
+          else if is_ws c then (if ia then Done acc ((c =? 10) && negb eb) buf' else scan ENone acc ia false buf')
+          else scan ENone (acc ++ [c]) true false buf'
       end
   end.
 
@@ -34,30 +37,30 @@ Inductive res (A : Type) := Ok (a : A) | Err.
 Arguments Ok {A}. Arguments Err {A}.
 
 (* refill loop: each element of [chunks] is what one read() returned; [] = end of file *)
-Fixpoint refill (e : esc) (acc : list byte) (ia : bool) (chunks : list (list byte))
+Fixpoint refill (e : esc) (acc : list byte) (ia eb : bool) (chunks : list (list byte))
   : res (option (list byte * bool * list byte * list (list byte))) :=
   match chunks with
   | [] => match e with
           | EQuote _ => Err
           | _ => if ia then Ok (Some (acc, false, [], [])) else Ok None
           end
-  | c :: cs => match scan e acc ia c with
+  | c :: cs => match scan e acc ia eb c with
                | Done t h rest => Ok (Some (t, h, rest, cs))
-               | NeedMore e' acc' ia' => refill e' acc' ia' cs
+               | NeedMore e' acc' ia' eb' => refill e' acc' ia' eb' cs
                end
   end.
 
 Definition next (pending : list byte) (chunks : list (list byte)) :=
-  match scan ENone [] false pending with
+  match scan ENone [] false false pending with
   | Done t h rest => Ok (Some (t, h, rest, chunks))
-  | NeedMore e acc ia => refill e acc ia chunks
+  | NeedMore e acc ia eb => refill e acc ia eb chunks
   end.
 
 (* the same reader over the whole input as one flat byte string *)
 Definition flat_next (data : list byte) : res (option (list byte * bool * list byte)) :=
-  match scan ENone [] false data with
+  match scan ENone [] false false data with
   | Done t h rest => Ok (Some (t, h, rest))
-  | NeedMore e acc ia => match e with
+  | NeedMore e acc ia _ => match e with
                          | EQuote _ => Err
                          | _ => if ia then Ok (Some (acc, false, [])) else Ok None
                          end
